@@ -55,7 +55,7 @@ Value& SUBRAWExpression::value(Context & ctx) const
     if (val.lvalue())
       return ctx.allocate(Value(Value::type_tabchar));
     val.swap(Value(Value::type_tabchar));
-    return val;
+    return handback(ctx, val);
   case Type::TABCHAR:
   {
     Value& a1 = _args[1]->value(ctx);
@@ -63,22 +63,22 @@ Value& SUBRAWExpression::value(Context & ctx) const
     switch (a1.type().major())
     {
     case Type::NO_TYPE:
-      return val;
+      return handback(ctx, val);
     case Type::INTEGER:
       if (a1.isNull())
-        return val;
+        return handback(ctx, val);
       a = *a1.integer();
       break;
     case Type::NUMERIC:
       if (a1.isNull())
-        return val;
+        return handback(ctx, val);
       a = clamp_to_integer(*a1.numeric());
       break;
     default:
       throw RuntimeError(EXC_RT_FUNC_ARG_TYPE_S, KEYWORDS[oper]);
     }
     if (val.isNull())
-      return val;
+      return handback(ctx, val);
     int64_t b, c;
     c = val.tabchar()->size();
     b = c;
@@ -88,15 +88,15 @@ Value& SUBRAWExpression::value(Context & ctx) const
       switch (a2.type().major())
       {
       case Type::NO_TYPE:
-        return val;
+        return handback(ctx, val);
       case Type::INTEGER:
         if (a2.isNull())
-          return val;
+          return handback(ctx, val);
         b = *a2.integer();
         break;
       case Type::NUMERIC:
         if (a2.isNull())
-          return val;
+          return handback(ctx, val);
         b = clamp_to_integer(*a2.numeric());
         break;
       default:
@@ -104,7 +104,7 @@ Value& SUBRAWExpression::value(Context & ctx) const
       }
     }
     if (c == 0)
-      return val;
+      return handback(ctx, val);
     a = (a < 0 ? a + c : a);
     /* a position before the start selects nothing (and c - a must not overflow) */
     b = (a < 0 ? 0 : std::max<int64_t>(std::min(b, c - a), 0L));
@@ -114,12 +114,12 @@ Value& SUBRAWExpression::value(Context & ctx) const
         return ctx.allocate(Value(new TabChar(val.tabchar()->begin() + a, val.tabchar()->begin() + a + b)));
       val.tabchar()->erase(val.tabchar()->begin(), val.tabchar()->begin() + a);
       val.tabchar()->erase(val.tabchar()->begin() + b, val.tabchar()->end());
-      return val;
+      return handback(ctx, val);
     }
     if (val.lvalue())
       return ctx.allocate(Value(new TabChar()));
     val.tabchar()->clear();
-    return val;
+    return handback(ctx, val);
   }
   default:
     throw RuntimeError(EXC_RT_FUNC_ARG_TYPE_S, KEYWORDS[oper]);
